@@ -1,5 +1,6 @@
 import Rink.Model.GnuUnits
 import Rink.Driver.Expr
+import Rink.Model.Load
 /-! Driver for the loader models: `defs FILE` prints the parsed definitions of a file, one per line. -/
 namespace Rink.Driver.Load
 open Rink Rink.Driver Rink.Gnu
@@ -24,5 +25,94 @@ def defsMain (path : String) : IO Unit := do
   let out ← IO.getStdout
   for d in parseStr text do
     out.putStrLn (fmtDef d)
+
+
+/-! ### `load`: run the loader model over files and print the registry in the dump format -/
+open Rink.Load
+
+def dimHex (d : Dim) : String :=
+  if d.isEmpty then "-" else ",".intercalate (d.map fun (k, p) => s!"{hex k}:{p}")
+
+/-- derived `Ord` of `Dimensionality` (a `BTreeMap<BaseUnit, i64>`): lexicographic on entries -/
+def dimLt : Dim → Dim → Bool
+  | [], [] => false
+  | [], _ :: _ => true
+  | _ :: _, [] => false
+  | (k1, p1) :: r1, (k2, p2) :: r2 =>
+    if k1 < k2 then true else if k2 < k1 then false
+    else if p1 < p2 then true else if p2 < p1 then false
+    else dimLt r1 r2
+
+def sortStr {α} (l : List (String × α)) : List (String × α) := (l.toArray.qsort fun a b => a.1 < b.1).toList
+
+def parseText (text : String) : Expr :=
+  let ts := Lex.lex Lex.asciiClass text.trimAscii.toString.toList
+  (Parse.parseEq (Parse.parseFuel ts) ts).1
+
+def optUnhex (s : String) : Option String := if s == "-" then none else some (unhex s)
+
+/-- one line of `rkh jsondefs` → a definition (expression texts parsed with the query parser,
+as `ExprString::try_from` does) -/
+def parseJdef (line : String) : Option Gnu.DefEntry :=
+  match line.trimAscii.toString.splitOn " " with
+  | "jdef" :: name :: doc :: cat :: kind :: rest =>
+    let doc := optUnhex (doc.drop 4).toString
+    let cat := optUnhex (cat.drop 4).toString
+    let mk := fun (d : Gnu.Def) => some ({ name := unhex name, defn := d, doc := doc, category := cat } : Gnu.DefEntry)
+    match kind, rest with
+    | "base", [l] => mk (.baseUnit (optUnhex l))
+    | "prefix", [isLong, e] => mk (.prefix_ (parseText (unhex e)) (isLong == "1"))
+    | "unit", [e] => mk (.unit (parseText (unhex e)))
+    | "quantity", [e] => mk (.quantity (parseText (unhex e)))
+    | "category", [n] => mk (.category (unhex n))
+    | "error", [m] => mk (.error (unhex m))
+    | "substance", sym :: props =>
+      let groups := (" ".intercalate props).splitOn " ; "
+      let ps := groups.filterMap fun g =>
+        match g.trimAscii.toString.splitOn " " with
+        | [n, iname, oname, pdoc, "IN", i, "OUT", o] =>
+          some ({ name := unhex n, inputName := unhex iname, outputName := unhex oname, doc := optUnhex (pdoc.drop 4).toString,
+                  input := parseText (unhex i), output := parseText (unhex o) } : Gnu.PropDef)
+        | _ => none
+      mk (.substance (optUnhex sym) ps)
+    | _, _ => none
+  | _ => none
+
+def dumpLS (st : LS) (out : IO.FS.Stream) : IO Unit := do
+  for b in (st.baseUnits.toList.toArray.qsort (· < ·)).toList do out.putStrLn s!"base {hex b}"
+  for (n, v) in sortStr st.units.toList do out.putStrLn s!"unit {hex n} {fmtNumeric v.value} {dimHex v.unit}"
+  for (n, v) in st.prefixes.toList do out.putStrLn s!"prefix {hex n} {fmtNumeric v}"
+  for (n, e) in sortStr st.definitions.toList do out.putStrLn s!"defexpr {hex n} {Expr.fmtE e}"
+  for (s, l) in sortStr st.longNames.toList do out.putStrLn s!"long {hex s} {hex l}"
+  for (d, n) in ((st.quantities.toList.map (·.2)).toArray.qsort fun a b => dimLt a.1 b.1).toList do out.putStrLn s!"quantity {dimHex d} {hex n}"
+  for (d, n) in ((st.decomposition.toList.map (·.2)).toArray.qsort fun a b => dimLt a.1 b.1).toList do out.putStrLn s!"decomp {dimHex d} {hex n}"
+  for (n, s) in sortStr st.substances.toList do
+    out.putStrLn s!"subst {hex n} {hex s.name} {fmtNumeric s.amount.value} {dimHex s.amount.unit}"
+    for (pn, p) in s.props do
+      out.putStrLn s!"prop {hex n} {hex pn} {fmtNumeric p.input.value} {dimHex p.input.unit} {hex p.inputName} {fmtNumeric p.output.value} {dimHex p.output.unit} {hex p.outputName}"
+  for (sym, n) in sortStr st.symbols.toList do out.putStrLn s!"symbol {hex sym} {hex n}"
+  for (n, c) in sortStr st.categories.toList do out.putStrLn s!"category {hex n} {hex c}"
+  for (c, n) in sortStr st.categoryNames.toList do out.putStrLn s!"catname {hex c} {hex n}"
+  for (n, d) in sortStr st.docs.toList do out.putStrLn s!"doc {hex n} {hex d}"
+  for t in (st.errors.toArray.qsort (· < ·)).toList do out.putStrLn s!"error {hex t}"
+
+/-- `load FILE... [--currency JDEFS UNITS]` -/
+def loadMain (args : List String) : IO Unit := do
+  let out ← IO.getStdout
+  let rec go (st : LS) : List String → IO LS
+    | [] => pure st
+    | "--currency" :: jdefs :: units :: rest => do
+      let utext ← IO.FS.readFile units
+      let jtext ← IO.FS.readFile jdefs
+      if jtext.trimAscii.toString == "jsonerror" || (jtext.splitOn "\n").any (· == "jsonerror") then
+        go { st with errors := st.errors ++ ["json"] } rest
+      else
+        let jd := (jtext.splitOn "\n").filterMap parseJdef
+        go (loadDefs st (Gnu.parseStr utext ++ jd)) rest
+    | f :: rest => do
+      let text ← IO.FS.readFile f
+      go (loadDefs st (Gnu.parseStr text)) rest
+  let st ← go {} args
+  dumpLS st out
 
 end Rink.Driver.Load
